@@ -24,6 +24,7 @@ Fixpoint spec_seq (base : Z -> option Z) (blen : Z) (tf : Z -> Z -> Z) (draws : 
   | [] => []
   | (p, CClear) :: r => EClear p :: spec_seq base blen tf draws [] cnt r
   | (p, CLen) :: r => ELen p blen :: spec_seq base blen tf draws seen cnt r
+  | (p, CMut _) :: r => EMut p :: spec_seq base blen tf draws seen cnt r      (* what a consumer does to its sample concerns nobody else *)
   | (p, CGet i) :: r =>
       (if mem i seen then [] else [ELoad p i])
       ++ ERet p i (cnt p) (expected base tf (draws p (cnt p)) i)
@@ -62,8 +63,8 @@ Definition calls_of (p : nat) (l : list ev) : list nat :=
 Definition transform_every_access (l : list ev) : Prop :=
   forall p, calls_of p l = seq 0 (length (calls_of p l)).
 
-(* the cache only ever holds samples of the wrapped dataset *)
-Definition dict_ok (base : Z -> option Z) (d : dict) : Prop := Forall (fun kv => base (fst kv) = Some (snd kv)) d.
+(* the cache only ever holds samples of the wrapped dataset (by content: [dict_content] of Model.v) *)
+Definition dict_ok (base : Z -> option Z) (d : list (Z * Z)) : Prop := Forall (fun kv => base (fst kv) = Some (snd kv)) d.
 
 (* executable versions used by Check.v *)
 Definition res_eqb (a b : res) : bool :=
@@ -79,11 +80,12 @@ Definition ev_eqb (a b : ev) : bool :=
   | EClear p, EClear q => Nat.eqb p q
   | ERet p i k r, ERet q j k' r' => Nat.eqb p q && (i =? j) && Nat.eqb k k' && res_eqb r r'
   | ELen p n, ELen q m => Nat.eqb p q && (n =? m)
+  | EMut p, EMut q => Nat.eqb p q
   | _, _ => false
   end.
 Definition transparentb (base : Z -> option Z) (tf : Z -> Z -> Z) (draws : nat -> nat -> Z) (l : list ev) : bool :=
   forallb (fun e => match e with
                     | ERet p i k r => res_eqb r (expected base tf (draws p k) i)
                     | _ => true end) l.
-Definition dict_okb (base : Z -> option Z) (d : dict) : bool :=
+Definition dict_okb (base : Z -> option Z) (d : list (Z * Z)) : bool :=
   forallb (fun kv => match base (fst kv) with Some v => v =? snd kv | None => false end) d.
